@@ -210,4 +210,62 @@ example : fits 4 (.struct [1, 0] [.list 7 1 [] [.struct [5] [.null]], .list 1 3 
 example : eq 4 (.list 1 3 [1, 0, 1] []) (.list 1 3 [1, 0, 0] []) = false := by simp [eq]
 example : eq 4 (.list 1 3 [1, 0, 1] []) (.list 0 3 [] []) = false := by simp [eq]
 
+/-! ## what is never equal: kinds, lengths, bit lists, element widths -/
+
+/-- node kinds: 0 null, 1 capability, 2 struct, 3 list -/
+def kind : Val → Nat
+  | .null => 0 | .cap _ => 1 | .struct _ _ => 2 | .list _ _ _ _ => 3
+
+/-- **values of different kinds are never equal** (null only to null, a capability only to a capability, …) -/
+theorem eq_kind (f : Nat) (a b : Val) (h : eq f a b = true) : kind a = kind b := by
+  cases f with
+  | zero => simp [eq] at h
+  | succ f => cases a <;> cases b <;> simp_all [eq, kind]
+
+theorem eq_null_only (f : Nat) (v : Val) (h : eq f .null v = true) : v = .null := by
+  have := eq_kind f _ _ h
+  cases v <;> simp_all [kind]
+
+/-- capabilities are equal only by identity -/
+theorem eq_cap_iff (f i j : Nat) : eq (f + 1) (.cap i) (.cap j) = true ↔ i = j := by simp [eq]
+
+/-- lists of different lengths are never equal -/
+theorem eq_list_len (f k1 n1 k2 n2 : Nat) (p1 p2 : List Nat) (e1 e2 : List Val)
+    (h : eq f (.list k1 n1 p1 e1) (.list k2 n2 p2 e2) = true) : n1 = n2 := by
+  cases f with
+  | zero => simp [eq] at h
+  | succ f =>
+    simp only [eq] at h
+    by_cases hn : n1 = n2
+    · exact hn
+    · simp [hn] at h
+
+/-- a bit list is equal only to a bit list with the same bits (never to a void / byte / struct list) -/
+theorem eq_bitlist_only (f n1 k2 n2 : Nat) (p1 p2 : List Nat) (e1 e2 : List Val)
+    (h : eq f (.list 1 n1 p1 e1) (.list k2 n2 p2 e2) = true) : k2 = 1 ∧ p1 = p2 := by
+  cases f with
+  | zero => simp [eq] at h
+  | succ f =>
+    have hn := eq_list_len _ _ _ _ _ _ _ _ _ h
+    subst hn
+    simp only [eq, ne_eq, not_true_eq_false, ↓reduceIte, true_or, decide_true, Bool.true_and, Bool.and_eq_true,
+      decide_eq_true_eq, beq_iff_eq] at h
+    exact h
+
+/-- primitive lists of different element widths are never equal (documented: no implicit widening) -/
+theorem eq_prim_width (f k1 k2 n1 n2 : Nat) (p1 p2 : List Nat) (e1 e2 : List Val)
+    (h1 : k1 ≠ 7) (h2 : k2 ≠ 7) (h : eq f (.list k1 n1 p1 e1) (.list k2 n2 p2 e2) = true) : k1 = k2 := by
+  cases f with
+  | zero => simp [eq] at h
+  | succ f =>
+    have hn := eq_list_len _ _ _ _ _ _ _ _ _ h
+    subst hn
+    simp only [eq, ne_eq, not_true_eq_false, ↓reduceIte] at h
+    by_cases hb : k1 = 1 ∨ k2 = 1
+    · simp only [hb, ↓reduceIte, Bool.and_eq_true, decide_eq_true_eq] at h; omega
+    · simp only [hb, ↓reduceIte, h1, h2, not_false_eq_true, and_self, Bool.and_eq_true, beq_iff_eq] at h
+      exact h.1
+
+example : eq 3 (.list 2 1 [5] []) (.list 3 1 [5, 0] []) = false := by simp [eq]
+
 end Capnp.Props.C17
